@@ -235,7 +235,9 @@ def kernelWhy (strand : Nat) (target working : Array Nat) (traps : List Trap) (k
     | some o => some s!"kernel-model-diagonals {showHit o} {o.lowDiag}..{o.highDiag}"
     | none => none
 
-/-- rows × columns the kernel has to fill at most once per trapezoid, a bound on the model's work -/
+/-- rows × columns the kernel has to fill at most once per trapezoid, a bound on the model's work.
+    The comparison is skipped above 2·10⁹ (two 20 kb sequences merged into one trapezoid per strand are
+    8·10⁸: every workload of the generator is compared; the model needs about 0.6 s for 10⁸). -/
 def trapWork (traps : List Trap) : Int :=
   traps.foldl (fun acc t => acc + (t.top - t.bottom + 1) * (t.right - t.left + 1 + 40)) 0
 
@@ -388,7 +390,7 @@ def handleCase (self : Bool) (minLen minIdMilli maxMemMB : Int) (plants : List P
               match trapsObs with
               | none => (none, tags)
               | some (t0, t1) =>
-                if trapWork t0 + trapWork t1 > 60000000 then (none, tags ++ ["kernel-model-skipped"])
+                if trapWork t0 + trapWork t1 > 2000000000 then (none, tags ++ ["kernel-model-skipped"])
                 else
                   let w0 := kernelWhy 0 target query t0 k minLen minIdMilli self (hits.filter (·.strand == 0))
                   let w1 := if givenTraps.isSome then none
